@@ -690,7 +690,8 @@ def op_merge(E, m, S):
     r1 = Reaction("R1", lower_bound=0, upper_bound=5)
     r1.add_metabolites({a: -1, z: 1})
     r9 = Reaction("R9", lower_bound=-1, upper_bound=E.real(S.tag("ub"), 0, B))
-    r9.add_metabolites({z: -1})
+    # Z is used by the new reaction too, or only by the duplicate-id reaction that merge ignores
+    r9.add_metabolites({(z if E.flag(S.tag("r9_uses_Z")) else a): -1})
     other.add_reactions([r1, r9])
     other.objective = "R9"
     prefix = E.pick(S.tag("prefix"), [None, "x_"])
